@@ -2,31 +2,31 @@
 
 // Hooks of the C17 harness (add-only, overlaid at build time as
 // remote/zz_verif_remote17.go, never committed): read access to the router's
-// table, to a stream writer's inbox and to the contents of a streamDeliver,
-// and the two constructors a stand-in Remoter needs to do what Remote.Start /
-// Remote.Send do without opening a listener.
+// table, to a stream writer's inbox and to the contents of a streamDeliver.
+// (The two constructors the race harness needs are in tools/hookx/remote/race17.go,
+// overlaid in the hvr build only: they call unexported constructors, and a
+// change of those must not keep the plain harness from being built.)
 package remote
 
 import (
 	"github.com/anthdm/hollywood/actor"
 )
 
-// VerifNewRouter is the producer Remote.Start spawns as "router".
-func VerifNewRouter(e *actor.Engine) actor.Producer { return newStreamRouter(e, nil, 0) }
-
-// VerifDeliverMsg is the message Remote.Send hands to the router.
-func VerifDeliverMsg(target, sender *actor.PID, msg any) any {
-	return &streamDeliver{target: target, sender: sender, msg: msg}
+// VerifDeliver17 is the contents of a streamDeliver.
+type VerifDeliver17 struct {
+	Target *actor.PID
+	Sender *actor.PID
+	Msg    any
 }
 
 // VerifDeliverOf opens a streamDeliver (the Message of the DeadLetterEvent
 // published for a message that found no stream writer).
-func VerifDeliverOf(m any) (d VerifDeliver, ok bool) {
+func VerifDeliverOf(m any) (d VerifDeliver17, ok bool) {
 	sd, ok := m.(*streamDeliver)
 	if !ok || sd == nil {
 		return d, false
 	}
-	return VerifDeliver{Target: sd.target, Sender: sd.sender, Msg: sd.msg}, true
+	return VerifDeliver17{Target: sd.target, Sender: sd.sender, Msg: sd.msg}, true
 }
 
 // VerifRouterPID is the PID of the router actor of a started Remote.
